@@ -94,7 +94,9 @@ SL_Q = [(n, k) for n in range(0, 4) for k in (0, 1, 3)]
 SL_T = [(n, k) for n in (2, 4) for k in (2, 4)]
 add('s_cmp', 'eq_slices', ['C13', 'C04'], lambda n, k: max(n, k) + 4, pairs=(SL_Q, SL_T))
 add('s_cmp', 'hash_layout', ['C13', 'C04'], U(1, 5), qn=[0, 1, 2, 3], tn=[4])
-add('s_cmp', 'debug_fmt', ['C13', 'C07', 'C04'], lambda n: 19, qn=[0, 1, 2, 3], tn=[4])
+DBG_Q = [(n, sp) for n in (0, 1, 2, 3) for sp in (0, 1, 2, 3)]
+DBG_T = [(4, sp) for sp in (0, 1, 2, 3)]   # specs 4, 5 ({:#?}, {:+#010?}) exceed 300 s / 16 GB: PadAdapter's line splitting; outside the bound
+add('s_cmp', 'debug_fmt', ['C13', 'C07', 'C04'], lambda n, sp: 19, pairs=(DBG_Q, DBG_T))
 
 # ---------------------------------------------------------------- byte-stream I/O (s_io)
 IO_Q = [(n, 2) for n in (0, 1, 2, 3, 4)]
@@ -117,6 +119,50 @@ add('s_zst', 'zst_cmp', ['C19'], lambda n: 9, qn=HUGE[:3], tn=HUGE[3:])
 TWO_Q = [(n, g) for n in (1, 2, 3) for g in (0, 1, 2)]
 TWO_T = [(4, g) for g in (0, 1, 2)]
 add('s_two', 'two_buffers', ['C04'], lambda n, g: max(n + 5, 9), pairs=(TWO_Q, TWO_T), stubs=[ROT])
+
+# ---------------------------------------------------------------- C17: no allocation (allocator entry points stubbed to panic)
+C17_CFG = ['nodefault', 'alloc', 'default']
+C17_N = [0, 1, 3]
+for fn in ('push_back', 'push_front', 'try_push_back', 'try_push_front', 'pop_back', 'pop_front', 'remove', 'swap',
+           'swap_remove_back', 'swap_remove_front', 'truncate_back', 'truncate_front', 'clear', 'extend', 'fill', 'fill_spare',
+           'fill_with', 'fill_spare_with'):
+    add('s_mut', fn, ['C17'], U(2, 4), qn=C17_N, tn=[4], stubs=NOALLOC, configs=C17_CFG)
+add('s_mut', 'extend_from_slice', ['C17'], lambda n: max(2 * n + 4, 15), qn=C17_N, tn=[4], stubs=NOALLOC, configs=C17_CFG)
+add('s_mut', 'make_contiguous', ['C17'], U(1, 4), qn=C17_N, tn=[4], stubs=NOALLOC + [ROT], configs=C17_CFG)
+for mod, fn in (('s_view', 'views'), ('s_view', 'view_mut'), ('s_view', 'view_mut_distinct'), ('s_iter', 'iter_script'),
+                ('s_iter', 'iter_mut_script'), ('s_iter', 'into_iter_script'), ('s_drain', 'drain'), ('s_drain', 'drain_forget'),
+                ('s_ctor', 'ctor_new'), ('s_ctor', 'from_iter'), ('s_ctor', 'clone_buf'), ('s_ctor', 'clone_from'),
+                ('s_cmp', 'ord_buffers'), ('s_cmp', 'hash_layout')):
+    add(mod, fn, ['C17'], U(2, 5), qn=C17_N, tn=[4], stubs=NOALLOC, configs=C17_CFG)
+add('s_ctor', 'from_array', ['C17'], lambda n, m: max(n, m) + 4, pairs=([(0, 2), (1, 3), (3, 2), (3, 5)], [(4, 7)]), stubs=NOALLOC, configs=C17_CFG)
+add('s_cmp', 'eq_buffers', ['C17'], lambda n, m: max(n, m) + 4, pairs=([(1, 3), (3, 3)], [(4, 3)]), stubs=NOALLOC, configs=C17_CFG)
+add('s_cmp', 'eq_slices', ['C17'], lambda n, k: max(n, k) + 4, pairs=([(3, 3)], [(4, 4)]), stubs=NOALLOC, configs=C17_CFG)
+add('s_cmp', 'debug_fmt', ['C17'], lambda n, sp: 19, pairs=([(3, 0)], [(3, 2)]), stubs=NOALLOC, configs=C17_CFG)
+add('s_io', 'io_std', ['C17'], lambda n, k: 18, pairs=([(3, 2)], [(4, 2)]), feat='feature = "std"', stubs=NOALLOC, configs=['default'])
+# sensitivity witnesses: these must hit the stub
+add('s_ctor', 'alloc_witness_vec', ['C17'], U(0, 4), qn=[1], tn=[], stubs=NOALLOC, configs=C17_CFG, expect_fail='ALLOCATION')
+add('s_ctor', 'alloc_witness_to_vec', ['C17'], U(1, 4), qn=[3], tn=[], stubs=NOALLOC, configs=['alloc', 'default'],
+    feat='feature = "alloc"', expect_fail='ALLOCATION')
+add('s_ctor', 'alloc_witness_boxed', ['C17'], U(1, 4), qn=[3], tn=[], stubs=NOALLOC, configs=['alloc', 'default'],
+    feat='feature = "alloc"', expect_fail='ALLOCATION')
+
+# ---------------------------------------------------------------- C18: the same families built with the `unstable` feature
+C18_CFG = ['default', 'unstable']
+C18_N = [0, 1, 3]
+for fn in ('push_back', 'push_front', 'try_push_back', 'try_push_front', 'pop_back', 'pop_front', 'remove', 'swap',
+           'swap_remove_back', 'swap_remove_front', 'truncate_back', 'truncate_front', 'clear', 'extend', 'fill', 'fill_spare',
+           'fill_with', 'fill_spare_with'):
+    add('s_mut', fn, ['C18'], U(2, 4), qn=C18_N, tn=[2, 4], mask='ALL', configs=C18_CFG)
+add('s_mut', 'extend_from_slice', ['C18'], lambda n: max(2 * n + 4, 15), qn=C18_N, tn=[2, 4], mask='ALL', configs=C18_CFG)
+add('s_mut', 'make_contiguous', ['C18'], U(1, 4), qn=C18_N, tn=[2, 4], stubs=[ROT], mask='ALL', configs=C18_CFG)
+for mod, fn in (('s_view', 'views'), ('s_view', 'view_mut'), ('s_view', 'view_mut_distinct'), ('s_iter', 'iter_script'),
+                ('s_iter', 'iter_mut_script'), ('s_iter', 'into_iter_script'), ('s_drain', 'drain'), ('s_drain', 'drain_forget'),
+                ('s_drain', 'drain_debug'), ('s_ctor', 'ctor_new'), ('s_ctor', 'from_iter'), ('s_ctor', 'clone_buf'),
+                ('s_ctor', 'clone_from'), ('s_ctor', 'into_iter_all'), ('s_cmp', 'ord_buffers'), ('s_cmp', 'hash_layout')):
+    add(mod, fn, ['C18'], U(2, 5), qn=C18_N, tn=[2, 4], mask='ALL', configs=C18_CFG)
+add('s_ctor', 'from_array', ['C18'], lambda n, m: max(n, m) + 4, pairs=([(0, 2), (1, 3), (3, 2), (3, 5)], [(2, 5), (4, 7)]), mask='ALL', configs=C18_CFG)
+add('s_cmp', 'eq_buffers', ['C18'], lambda n, m: max(n, m) + 4, pairs=([(1, 3), (3, 3)], [(4, 3)]), mask='ALL', configs=C18_CFG)
+add('s_io', 'io_std', ['C18'], lambda n, k: 18, pairs=([(1, 2), (3, 2)], [(4, 2)]), feat='feature = "std"', mask='ALL', configs=C18_CFG)
 
 
 def nname(n):
